@@ -1,4 +1,4 @@
 SPECIFICATION Spec
 INVARIANT HistoryIndependent InputsUntouched WholeLinesInOrder AllLinesWritten ResultsFunctionOfProgramsOnly ExportHistories
-PROPERTY InputsImmutableC
+PROPERTY InputsImmutableC RefinesProvedProtocol
 CHECK_DEADLOCK TRUE
